@@ -25,4 +25,14 @@ IdByKey(n) == CASE n = 2 -> IdBy2 [] n = 3 -> IdBy3 [] n = 4 -> IdBy4 [] n = 5 -
 (* class id of a sign-free group; -1 if its key is not the key of any representative *)
 IdOfGroup(n, G) == LET k == ClassKey(G) f == IdByKey(n) IN IF k \in DOMAIN f THEN f[k] ELSE -1
 
+(***************************************************************************)
+(* The table entry the library's lookup metadata holds FOR A CLASS: the    *)
+(* line of the (n, conn) table whose graph has the class key of the given  *)
+(* group.  Independent of class ids and of get_graph(): used wherever a    *)
+(* property speaks about "the cost / depth reported for the class".        *)
+(* <<graph, cost, depth>>, or <<-1,-1,-1>> if no line has that key.        *)
+(***************************************************************************)
+LineOfGroup(n, conn, G) == LET k == ClassKey(G) f == EntryIndexByKey(n, conn) IN IF k \in DOMAIN f THEN f[k] ELSE 0
+EntryOfGroup(n, conn, G) == LET i == LineOfGroup(n, conn, G) IN IF i > 0 THEN TableOf(n, conn)[i] ELSE <<-1, -1, -1>>
+
 =============================================================================
